@@ -172,6 +172,26 @@ block, flattened + restarted before the last block} (thorough: 30 variants incl.
 3-block family is kept). Guard: some chain must destruct and re-create in one block (both receipts successful, the
 address exists afterwards) and pay the address in a later block.
 
+seeded-i-snapshot-not-covered-yet-treated-as-absent       | no tests (kai/state)     | exit 1  | C06|block=(empty)@legacy-genesis|axis=snapshot+
+  (independently written; /verif/seeded/C06i):            |                          | (3 of 3 |  snapshot-still-generating|field=error
+  kai/state/statedb.go getDeletedStateObject: a snapshot  |                          |  runs,  |  (the commit aborts, nothing of the block is stored:
+  error other than ErrSnapshotStale (in particular        |                          |  same   |  "stored block info does not decode: EOF"; 1296 of the
+  ErrNotCoveredYet of a disk layer still being generated) |                          |  sig)   |  1296 blocks/chains show it)
+  is memoised and the account reported absent             |                          |         |
+
+The fourth seeded change (C06i) was MISSED (quick exit 0). What excluded it: every snapshot node of the check waited for
+the snapshot generation (SnapshotWait true), so no disk-layer read ever answered ErrNotCoveredYet. Added: node kind
+"snapshot still generating" (variant flag snapshot_generation_held, axis name snapshot-still-generating): after the node
+executed the parent blocks, its snapshot tree is replaced (injected VerifC06HoldSnapshotGeneration, construction through
+the public snapshot.New / Rebuild) by one over the same database, with the snapshot data wiped (a FIRST generation) and a
+generator that is given a node database without the head root, so it stops at its first step ("Trie missing, state
+snapshotting paused") with an EMPTY generation marker: deterministic, every account / slot read of the disk layer answers
+ErrNotCoveredYet. Every single block and every chain is executed on such a node (quick: configuration 0010; thorough:
+also 0111 for blocks of <= 2 transactions) and compared with the trie-only reference. Measured before and after every such
+execution (VerifC06SnapshotProbe): genMarker != nil and an account read at the head answers ErrNotCoveredYet; guards:
+> 0 such executions and none that found the generation finished. (With the old snapshot data left in the database the
+generator re-validates it by range proof and finishes without opening the trie - that is why the data is wiped.)
+
 M20 (commitBlock does not RevertToSnapshot after a failing transaction: `_ = snap` instead of
 `state.RevertToSnapshot(snap)`): tried, quick exits 0, and that is correct for THIS property. Every node —
 proposer and receivers alike — executes the block through the same commitBlock, so the un-reverted residue
